@@ -3,7 +3,7 @@
 #include <stdlib.h>
 #include <stdint.h>
 #include <string.h>
-static uint64_t in[65536]; static int nin, pos; static uint32_t par[32]; static int npar;
+static uint64_t in[65536]; static int nin, pos; static uint32_t par[512]; static int npar;
 uint64_t vp_next_input(void) { return pos < nin ? in[pos++] : 0; }
 uint32_t vp_native_param(uint32_t k) { return k < (uint32_t)npar ? par[k] : 0; }
 void vp_fail(const char* m) { printf("VP_CHECK_FAIL %s\n", m); fflush(stdout); exit(3); }
@@ -11,7 +11,7 @@ void vp_assume_fail(void) { printf("VP_ASSUME_FAILED\n"); fflush(stdout); exit(4
 void vp_init_globals(void); void vp_rt_init(void); void ENTRY(void);
 int main(int argc, char** argv) {
   FILE* f = fopen(argv[1], "r"); unsigned long long v; while (f && fscanf(f, "%llu", &v) == 1) in[nin++] = v;
-  const char* ps = getenv("VP_PARAMS"); if (ps) { char* c = (char*)ps; while (*c) { par[npar++] = (uint32_t)strtol(c, &c, 10); if (*c == ',') ++c; } }
+  const char* ps = getenv("VP_PARAMS"); if (ps) { char* c = (char*)ps; while (*c && npar < 512) { par[npar++] = (uint32_t)strtol(c, &c, 10); if (*c == ',') ++c; } }
   vp_rt_init(); vp_init_globals(); ENTRY();
   { extern int vp_exc_pending; if (vp_exc_pending) { printf("VP_UNCAUGHT_EXCEPTION\n"); return 6; } }
   printf("VP_DONE\n"); return 0; }
